@@ -78,9 +78,21 @@ def build_tree(root, rng):
     files["fix/rec2.graphql"] = "query R2 { a { ...G ...F } }\nfragment G on A { name }\nfragment F on A { as { ...F } }\n"
     # deeply nested documents (26-40 levels): whatever a call keeps per level must be the call's own, also when many threads
     # are that deep at the same time
-    files["fix/deep1.graphql"] = "query D1 { a " + "{ a " * 25 + "{ id }" + " }" * 25 + " }\n"
-    files["fix/deep2.graphql"] = "query D2 { a " + "{ as " * 30 + "{ id name }" + " }" * 30 + " }\n"
-    files["fix/deep3.graphql"] = "query D3 { u { __typename ... on A " + "{ a " * 38 + "{ id }" + " }" * 38 + " } }\n"
+    # Each level also selects 12 aliased scalars before and 12 after the nested field, so that a call spends most of its
+    # time somewhere inside the nesting (descending and unwinding) and 16 lockstep threads really overlap there.
+    def deep(name, head, field, levels, leaf, tail=""):
+        pre = lambda k: " ".join("p%d_%d: %s" % (k, j, "id" if j % 2 else "name") for j in range(12))
+        post = lambda k: " ".join("q%d_%d: %s" % (k, j, "name" if j % 2 else "id") for j in range(12))
+        text = "query %s { %s" % (name, head)
+        for k in range(levels):
+            text += "{ %s %s " % (pre(k), field)
+        text += leaf
+        for k in reversed(range(levels)):
+            text += " %s }" % post(k)
+        return text + tail + " }\n"
+    files["fix/deep1.graphql"] = deep("D1", "a ", "a", 25, "{ id }")
+    files["fix/deep2.graphql"] = deep("D2", "a ", "as", 30, "{ id name }")
+    files["fix/deep3.graphql"] = deep("D3", "u { __typename ... on A ", "a", 38, "{ id }", tail=" }")
     # the same file names one directory level up / down: reached through relative paths from the working directory a/
     files["schema.graphql"] = files["b/schema.graphql"]
     files["q.graphql"] = files["b/q.graphql"]
